@@ -195,6 +195,21 @@ CHECKS = {
         technique="Lean 4 proof over an executable cascade model + differential correspondence against an independent geometric evaluation",
         ref="5/C02",
     ),
+    "C12": dict(
+        text="Theorems (Lean 4, polynomial identities with angles as (cos, sin) pairs and sqrt/norm as oracles constrained by their squares): the state coe2eci builds has exactly the "
+             "radius p/(1+e cos v), speed, r.v sign, angular momentum p*sq*(sin O sin i, -cos O sin i, cos i), node line, eccentricity vector e*P and semi-major axis that eci2coe "
+             "measures, and the cosines/quadrant tests of argument of perigee, argument of latitude and true anomaly are those of the angles given; the four branches are exhaustive "
+             "and disjoint, degenerate elements are returned as exactly zero, every returned angle is in [0, 2pi), singularityCheck preserves the signed longitude up to whole turns "
+             "(node angle counted backwards for retrograde equatorial orbits, with a witness of the unrepaired mirror image); the equinoctial frame is orthonormal and right-handed, "
+             "p/q invert the unit angular momentum (direct and retrograde), h^2+k^2=e^2, radius from equinoctial elements; true/eccentric anomaly maps are mutually inverse as unit "
+             "vectors. Tied to the code by exact-rational evaluation of every modelled function on the real code's own inputs (coe2eci, flags/branch, singularityCheck, eci2coe angle "
+             "selection, sma, eccentricity vector, angular momentum, equinoctial basis, p/q, eqe2eci) and by round trips of the real conversions, Newton solvers and the ECI/COE/EQE "
+             "configuration descriptions over orbits straddling every threshold.",
+        note=BASE_TB + "arccos/arctan2/sqrt are oracles in the theorems; convergence of the Newton solvers is exercised on the real code only; orbits inside the circular/equatorial "
+             "limits are reproduced to 4x the limit, others to 2e-7 relative (arccos resolution near 0/pi). One open known finding: wrapAngle2Pi returns 2*pi for tiny negative input.",
+        technique="Lean 4 proof of the element/state identities + exact-rational differential correspondence + real-code round trips",
+        ref="5/C12",
+    ),
     "C11": dict(
         text="Theorems (Lean 4, corollaries of C04/C05 for the Terrestrial model): the state the site reports, converted back with the reduction of the same instant, is exactly "
              "the configured Earth-fixed position at rest; the anchor computed at construction is the configured geodetic point; the inertial velocity is PNR(omega x W r) with "
